@@ -208,6 +208,10 @@ func c09Check(c c09Case) error {
 		}
 		img2 := append([]byte(nil), orig...)
 		copy(img2[off:off+0x50], c.Header)
+		// the bytes at the default location must differ from the header under test, or a write that lands there goes unnoticed
+		for i := 0; i < 0x50; i++ {
+			img2[0x7FB0+i] ^= 0xA5
+		}
 		want2 := append([]byte(nil), img2...)
 		r2, err := snes.NewROM("offset", img2)
 		if err != nil {
